@@ -145,12 +145,21 @@ func (m *roaManager) ReceiveROA() chan *roaEvent {
 	return m.eventCh
 }
 
+// notify hands an event to the server loop. A stopped client gives up instead
+// of waiting: the loop may have ended and nobody would take the event.
+func (c *roaClient) notify(ev *roaEvent) {
+	select {
+	case c.eventCh <- ev:
+	case <-c.ctx.Done():
+	}
+}
+
 func (c *roaClient) lifetimeout() {
-	c.eventCh <- &roaEvent{
+	c.notify(&roaEvent{
 		EventType: roaLifetimeout,
 		Src:       c.host,
 		timestamp: time.Now(),
-	}
+	})
 }
 
 func (m *roaManager) HandleROAEvent(ev *roaEvent) {
@@ -408,6 +417,9 @@ func (c *roaClient) reset() {
 
 func (c *roaClient) stop() {
 	c.cancelfnc()
+	if c.timer != nil {
+		c.timer.Stop()
+	}
 	c.reset()
 }
 
@@ -422,11 +434,15 @@ func (c *roaClient) tryConnect() {
 			// better to use context with timeout
 			time.Sleep(connectRetryInterval * time.Second)
 		} else {
-			c.eventCh <- &roaEvent{
+			select {
+			case c.eventCh <- &roaEvent{
 				EventType: roaConnected,
 				Src:       c.host,
 				conn:      conn.(*net.TCPConn),
 				timestamp: time.Now(),
+			}:
+			case <-c.ctx.Done():
+				conn.Close()
 			}
 			return
 		}
@@ -436,11 +452,11 @@ func (c *roaClient) tryConnect() {
 func (c *roaClient) established() (err error) {
 	defer func() {
 		c.conn.Close()
-		c.eventCh <- &roaEvent{
+		c.notify(&roaEvent{
 			EventType: roaDisconnected,
 			Src:       c.host,
 			timestamp: time.Now(),
-		}
+		})
 	}()
 
 	if err := c.softReset(); err != nil {
@@ -462,11 +478,11 @@ func (c *roaClient) established() (err error) {
 			return err
 		}
 
-		c.eventCh <- &roaEvent{
+		c.notify(&roaEvent{
 			EventType: roaRTR,
 			Src:       c.host,
 			Data:      append(header, body...),
 			timestamp: time.Now(),
-		}
+		})
 	}
 }
